@@ -54,6 +54,8 @@ def run(ck: Checker, prog: Program, tier: str):
     from . import c08
     with ck.borrow(c08, "C16.R4+"):
         ck.guard(c08._r1, ck, prog)
+    from .common import check_identity_comparisons as _cic
+    ck.guard(_cic, ck, prog, "C16.R1", "C16")
 
 
 OPAQUE = ("trim_curve", "peak_index", "pass_fail", "is_isnot", "colored")
